@@ -178,6 +178,8 @@ PROPS.update({
         runs={"quick": 100000, "thorough": 4500000},
         rule="generated network models x des seeds; each executed 2x in-process and 1x in another process after warm-up sims; distinct = "
              "distinct program hash; non-trivial = the trace contains a jittered delivery or a random draw",
+        fault_probes=["other_thread_set_up_a_simulation_during_a_handler"],
+        expected_probes=["topology_routes_queried", "other_thread_set_up_a_simulation_during_a_handler"],
         assumptions=["traces abstract from process-dependent identities by construction", "sampled programs, not exhaustive"]),
     "C07": net_prop(
         level_text="Seeded exploration: traffic patterns (bursts, gaps below / equal to / above the transmission time, sizes 64 B..4 KiB) over "
